@@ -1,7 +1,7 @@
 (** C03 — reserved outputs are exclusive: no two live transactions share an input.
     Statements only (proofs: theories/LedgerProofs.v, theories/SelectProofs.v). The model
     (theories/Ledger.v) is tied to libwallet by the ledger correspondence run of ./check C03. *)
-From GW Require Import Ledger LedgerProofs Select SelectProofs.
+From GW Require Import Ledger LedgerProofs Select SelectProofs HeldProofs.
 
 (** A successful reservation (owner::tx_lock_outputs / lock_tx_context), in ANY wallet
     state: every input it takes was free (Unspent, or Unconfirmed for 0-confirmation
@@ -100,6 +100,28 @@ Theorem C03_held_outputs_are_stable : forall w k m o,
 Proof. exact held_stable_step. Qed.
 Print Assumptions C03_held_outputs_are_stable.
 
+(** History level. In EVERY state reachable from the empty wallet by standard-flow operations
+    (receive, reserve, cancel, build_coinbase incl. caller-named keys, refresh with arbitrary
+    node answers, initiate incl. late lock and source accounts, finalize incl. late lock,
+    account switch, TTL expiry — over any number of accounts and slates, in any order), every
+    Locked output is held by a TxSent log entry of the output's OWN account: the reservation
+    has exactly one owner, and that owner is where cancel_tx looks for it. (Proved through the
+    invariant [Inv]: log sorted by key with ids below the counters, plus what stored contexts
+    may refer to. The invoice operations are outside [std_op]: see theories/HeldProofs.v.) *)
+Theorem C03_every_locked_output_has_one_live_owner : forall ops, forallb std_op ops = true ->
+  let w := run empty_wallet ops in
+  forall o, In o (w_outs w) -> r_status o = Locked ->
+  exists id t, r_tx o = Some id /\ In t (w_log w) /\ t_parent t = r_root o /\ t_id t = id
+               /\ t_type t = TSent.
+Proof. exact locked_is_held. Qed.
+Print Assumptions C03_every_locked_output_has_one_live_owner.
+
+(** the invariant is preserved by every single standard-flow step from ANY state satisfying it
+    (not only from the empty wallet) *)
+Theorem C03_invariant_step : forall w o, std_op o = true -> Inv w -> Inv (fst (step w o)).
+Proof. exact step_inv. Qed.
+Print Assumptions C03_invariant_step.
+
 (** non-vacuity: a concrete two-slate history (init A, init B over the same coin, lock A,
     lock B) in which the second reservation is refused and the coin stays held by A. *)
 Example C03_two_slates :
@@ -128,3 +150,15 @@ Example C03_invoice_twice :
   /\ fst (step wP (OpProcessInvoice 7 0 (Some 1) p 6 pres [])) = wP
   /\ snd (step wP (OpProcessInvoice 7 0 (Some 1) p 6 pres [])) = [1%Z; 5%Z].
 Proof. vm_compute. repeat split; reflexivity. Qed.
+
+(** non-vacuity of the history-level theorem: a standard-flow history over two accounts that
+    ends with a Locked output of account 1 held by entry 1 of account 1. *)
+Example C03_history_with_held_output :
+  let pres := [((0, 0), None, 1); ((1, 0), None, 2)] in
+  let p := mkParams 1000000000 false 6 1 500 1 false 0 in
+  let ops := [OpCoinbase 0 1 None; OpSetActive 1; OpCoinbase 0 2 None; OpRefresh 1 true 6 pres [];
+              OpSetActive 0; OpInitSend 5 (Some 1) p false; OpLock 5 0 6 true] in
+  forallb std_op ops = true
+  /\ exists o, In o (w_outs (run empty_wallet ops)) /\ r_status o = Locked /\ r_root o = 1
+               /\ r_tx o = Some 1.
+Proof. vm_compute. split; [reflexivity|]. eexists. split; [right; right; left; reflexivity|]. repeat split. Qed.
